@@ -14,8 +14,18 @@ inductive Cur
   | req (p : Req.Parser)
   | str (p : Str.Parser)
 
+structure AState where
+  req : Option Async.AReq := none
+  writers : List (Option Async.Writer) := []
+  mutex : Async.MutexSt := none
+  tr : Async.Transport := { input := [], endMode := .eof, rd := [], wr := [], fl := [] }
+  wfut : Option Bool := none                       -- writeable() future alive: started?
+  close : Option (Async.CloseSt × ExitStatus) := none
+  wlogSeen : Nat := 0
+
 structure DState where
   cur : Cur := .none
+  a : AState := {}
 
 def natArg (s : String) : Option Nat := s.toNat?
 
@@ -327,11 +337,172 @@ def stepParser (st : DState) (args : List String) : Option (DState × String) :=
     | _ => some (st, "no-parser")
   | _ => none
 
+open Async in
+def showIoErr : IoErr → String
+  | .connectionAborted => "aborted" | .invalidData => "invalid" | .other => "other" | .unexpectedEof => "eof"
+  | .writeZero => "writezero" | .connectionReset => "reset" | .transportRead => "tread"
+  | .transportWrite => "twrite" | .transportFlush => "tflush" | .writersAlive => "writers"
+
+def parseAnsList (s : String) (f : String → Option α) : Option (List α) :=
+  if s == "-" then some [] else (s.splitOn ",").mapM f
+
+def parseRd (s : String) : Option Async.RdAns :=
+  if s == "A" then some .all else if s == "P" then some .pending else (natArg s).map .n
+def parseWr (s : String) : Option Async.WrAns :=
+  if s == "A" then some .all else if s == "P" then some .pending else if s == "Z" then some .zero
+  else if s == "E" then some .err else (natArg s).map .n
+def parseFl (s : String) : Option Async.FlAns :=
+  if s == "O" then some .ok else if s == "P" then some .pending else if s == "E" then some .err else none
+
+def kv (args : List String) (key : String) : Option String :=
+  args.findSome? fun a => if a.startsWith (key ++ "=") then some ((a.drop (key.length + 1)).toString) else none
+
+/-- common observation suffix: writeable flag, transport events of this op, bytes written during this op -/
+def aSuffix (a : AState) : AState × String :=
+  let evs := if a.tr.events.isEmpty then "-" else String.intercalate "," a.tr.events
+  let wd := a.tr.wlog.drop a.wlogSeen
+  let w := match a.req, a.wfut, a.close with
+    | some r, none, none => toString r.writeable
+    | some _, some _, none => "?"
+    | _, _, _ => "-"
+  ({ a with tr := { a.tr with events := [] }, wlogSeen := a.tr.wlog.length }, s!" w={w} ev={evs} wd={hexOrDash wd}")
+
+def parseStatus (k c : String) : Option ExitStatus := do
+  let code ← natArg c
+  match k with
+  | "complete" => some (.complete code)
+  | "overloaded" => some .overloaded
+  | "unknownrole" => some .unknownRole
+  | "abort" => some .abort
+  | _ => none
+
+def updWriter (ws : List (Option Async.Writer)) (i : Nat) (w : Option Async.Writer) : List (Option Async.Writer) :=
+  ws.set i w
+
+def stepAsync (st : DState) (args : List String) : Option (DState × String) :=
+  let a := st.a
+  let fin (a : AState) (o : String) : Option (DState × String) :=
+    let (a, suf) := aSuffix a
+    some ({ st with a := a }, o ++ suf)
+  match args with
+  | "a.new" :: b :: mc :: id :: role :: flags :: rest => do
+    let inp ← bytesOfHex (← kv rest "in")
+    let la ← natArg (← kv rest "la")
+    let endMode ← (match (← kv rest "end") with | "eof" => some Async.EndMode.eof | "pend" => some .pend | "err" => some .err | _ => none)
+    let rd ← parseAnsList (← kv rest "rd") parseRd
+    let wr ← parseAnsList (← kv rest "wr") parseWr
+    let fl ← parseAnsList (← kv rest "fl") parseFl
+    let rid ← natArg id
+    let rp := Req.Parser.new (← natArg b) (← natArg mc)
+    let pre := (BeginRequest.toRecord { role := ← natArg role, flags := UInt8.ofNat (← natArg flags) } rid) ++
+      RecordHeader.toBytes { rtype := RT.params, requestId := rid, contentLength := 0, paddingLength := 0 }
+    match rp.parse (pre ++ inp.take la) with
+    | (rp', some _) =>
+      match rp'.intoStreamParser with
+      | .ok sp =>
+        let r := Async.AReq.new sp
+        let a : AState := { req := some r, tr := { input := inp.drop la, endMode, rd, wr, fl } }
+        let (a, suf) := aSuffix a
+        some ({ st with a := a }, s!"ok active={showOptStream sp.stream}" ++ suf)
+      | .error e => some (st, s!"err {showPErr e}")
+    | (_, none) => some (st, "panic")
+  | ["a.read", n] => do
+    let k ← natArg n
+    match a.req, a.wfut, a.close with
+    | some r, none, none =>
+      let (r, m, t, res) := r.pollInput (some k) a.mutex a.tr
+      let o := match res with
+        | .ready n d => s!"ready {n} {hexOrDash d}" | .pending => "pending" | .err e => s!"err {showIoErr e}" | .panic _ => "panic"
+      fin { a with req := some r, mutex := m, tr := t } o
+    | _, _, _ => some (st, "busy")
+  | ["a.fill"] =>
+    match a.req, a.wfut, a.close with
+    | some r, none, none =>
+      let (r, m, t, res) := r.pollInput none a.mutex a.tr
+      let o := match res with
+        | .ready _ _ => s!"ready {r.sp.parsed.length} {hexOrDash r.sp.parsed}" | .pending => "pending" | .err e => s!"err {showIoErr e}" | .panic _ => "panic"
+      fin { a with req := some r, mutex := m, tr := t } o
+    | _, _, _ => some (st, "busy")
+  | ["a.consume", k] => do
+    match a.req, a.wfut, a.close with
+    | some r, none, none =>
+      let r := { r with sp := r.sp.consumeStream (← natArg k) }
+      fin { a with req := some r } "ok"
+    | _, _, _ => some (st, "busy")
+  | ["a.set_stream", t] => do
+    match a.req, a.wfut, a.close with
+    | some r, none, none =>
+      match r.setStream (← natArg t) with
+      | some r' => fin { a with req := some r' } s!"ok active={showOptStream r'.sp.stream}"
+      | none => fin a "panic"
+    | _, _, _ => some (st, "busy")
+  | ["a.writeable"] =>
+    match a.req, a.close with
+    | some r, none =>
+      let started := a.wfut.getD false
+      let (r, started', m, t, res) := r.writeablePoll started a.mutex a.tr
+      let (o, wf) := match res with
+        | .ready => ("ready", none) | .pending => ("pending", some started') | .err e => (s!"err {showIoErr e}", none) | .panic _ => ("panic", none)
+      fin { a with req := some r, mutex := m, tr := t, wfut := wf } o
+    | _, _ => some (st, "busy")
+  | ["a.open", t] => do
+    let ty ← natArg t
+    match a.req with
+    | some r =>
+      if !(outputStreams r.sp.request.role).contains ty || !r.writeable then fin a "panic"
+      else fin { a with writers := a.writers ++ [some { rtype := ty, id := r.sp.request.id }] } s!"w{a.writers.length}"
+    | none => some (st, "busy")
+  | ["a.clone", i] => do
+    match a.writers.getD (← natArg i) none with
+    | some w => fin { a with writers := a.writers ++ [some { rtype := w.rtype, id := w.id, contentLen := w.contentLen, padLen := w.padLen }] } s!"w{a.writers.length}"
+    | none => some (st, "no-writer")
+  | ["a.wpoll", i, h] => do
+    let idx ← natArg i
+    let buf ← bytesOfHex h
+    match a.writers.getD idx none with
+    | some w =>
+      let (w, m, t, res) := w.pollWrite idx buf a.mutex a.tr
+      let o := match res with | .ready n => s!"ready {n}" | .pending => "pending" | .err e => s!"err {showIoErr e}" | .panic _ => "panic"
+      fin { a with writers := updWriter a.writers idx (some w), mutex := m, tr := t } o
+    | none => some (st, "no-writer")
+  | ["a.fpoll", i] => do
+    let idx ← natArg i
+    match a.writers.getD idx none with
+    | some w =>
+      let (w, m, t, res) := w.pollFlush idx a.mutex a.tr
+      let o := match res with | .ready _ => "ready" | .pending => "pending" | .err e => s!"err {showIoErr e}" | .panic _ => "panic"
+      fin { a with writers := updWriter a.writers idx (some w), mutex := m, tr := t } o
+    | none => some (st, "no-writer")
+  | ["a.drop", i] => do
+    let idx ← natArg i
+    match a.writers.getD idx none with
+    | some w => fin { a with writers := updWriter a.writers idx none, mutex := Async.lockDrop w.lock a.mutex } "ok"
+    | none => some (st, "no-writer")
+  | ["a.close", k, c] => do
+    let status ← parseStatus k c
+    match a.req, a.wfut with
+    | some r, none =>
+      let (cs, status) := a.close.getD (.start, status)
+      let alive := (a.writers.filter Option.isSome).length
+      let (r, cs, m, t, res) := Async.closePoll r cs status alive a.mutex a.tr
+      match res with
+      | .pending => fin { a with req := some r, mutex := m, tr := t, close := some (cs, status) } "pending"
+      | .err e => fin { a with req := none, mutex := m, tr := t, close := none } s!"err {showIoErr e}"
+      | .panic _ => fin { a with req := none, mutex := m, tr := t, close := none } "panic"
+      | .reuse rp =>
+        let (a', suf) := aSuffix { a with req := none, mutex := m, tr := t, close := none }
+        some ({ st with a := a', cur := .req rp }, s!"reuse free={rp.free}" ++ suf)
+    | _, _ => some (st, "busy")
+  | _ => none
+
 def step (st : DState) (line : String) : DState × String :=
-  if line.startsWith "# case" then ({ cur := .none }, line) else
+  if line.startsWith "# case" then ({ cur := .none, a := {} }, line) else
   if line.startsWith "#" then (st, line) else
   let args := (line.splitOn " ").filter (· ≠ "")
   match stepParser st args with
+  | some r => r
+  | none =>
+  match stepAsync st args with
   | some r => r
   | none =>
   match stepVarInt args with
